@@ -874,6 +874,16 @@ def deleteChart (g : RefG) (container ridC : Str) : RefG := g.dropUse container 
 
 /-- DeleteTable: tablePart entry, worksheet relationship and table part go together -/
 def deleteTable (g : RefG) (sheet rid table : Str) : RefG := ((g.dropUse sheet rid).dropRel sheet rid).dropPart table
+
+/-- DeletePivotTable (pivotTable.go; regenerated fact `deletePivotKeepsParts`), in the order of the
+code: when this pivot table is the last user of its cache (`pivotTableCaches[…] == 1`),
+`deleteWorkbookPivotCache` first removes the workbook relationship to the cache
+(`deleteWorkbookRels`) and then the `<pivotCache r:id>` entry of the workbook; in every case the
+worksheet relationship to the pivot table part goes (`deleteSheetRelationships`). No part is
+deleted: the pivot table part, its own relationship to the cache and the cache part stay. -/
+def deletePivotTable (g : RefG) (sheet ridS wb ridW : Str) (lastUser : Bool) : RefG :=
+  let g1 := if lastUser then (g.dropRel wb ridW).dropUse wb ridW else g
+  g1.dropRel sheet ridS
 end RefG
 
 /-! ### shared strings (cell.go `setSharedString`, tail of `SetCellRichText`) -/
